@@ -20,30 +20,62 @@ Inductive tyt : Type :=
 | YAlias (pr : string) (rhs : tyt)
 | YOpaque (pr : string).                            (* type parameters, generic instances, tuples: outside the fragment *)
 
-Definition dec (z : Z) : string := NilZero.string_of_int (Z.to_int z).
-(* length-prefixed atom: unambiguous whatever bytes the string holds *)
-Definition lp (s : string) : string := dec (Z.of_nat (String.length s)) ++ ":" ++ s.
-
-(* canonical form: aliases vanish, basic types by kind, everything else structurally *)
-Fixpoint canon (t : tyt) : string :=
-  let fix canons (l : list tyt) : string := match l with [] => "" | x :: r => lp (canon x) ++ canons r end in
+(* normal form: aliases vanish at every depth, basic types keep their kind only, the printed strings are dropped *)
+Fixpoint norm (t : tyt) : tyt :=
   match t with
-  | YBasic k _ => "b" ++ lp k
-  | YNamed p n => "n" ++ lp (match p with Some x => x | None => "" end) ++ lp n
-  | YPtr e => "*" ++ canon e
-  | YSlice e _ => "s" ++ canon e
-  | YArray n e _ => "a" ++ lp (dec n) ++ canon e
-  | YMap k v _ => "m" ++ lp (canon k) ++ canon v
-  | YChan d e _ => "c" ++ lp d ++ canon e
-  | YFunc ps rs v _ => "f" ++ (if v then "v" else "-") ++ lp (canons ps) ++ lp (canons rs)
-  | YStruct meta ts _ =>
-      "t" ++ lp (fold_right (fun (m : string * bool * string) (acc : string) => let '(n, e, tag) := m in lp n ++ (if e then "e" else "-") ++ lp tag ++ acc) "" meta) ++ lp (canons ts)
-  | YIface names sigs _ => "i" ++ lp (fold_right (fun (n : string) (acc : string) => lp n ++ acc) "" names) ++ lp (canons sigs)
-  | YAlias _ r => canon r
-  | YOpaque pr => "o" ++ lp pr
+  | YBasic k _ => YBasic k ""
+  | YNamed p n => YNamed p n
+  | YPtr e => YPtr (norm e)
+  | YSlice e _ => YSlice (norm e) ""
+  | YArray n e _ => YArray n (norm e) ""
+  | YMap k v _ => YMap (norm k) (norm v) ""
+  | YChan d e _ => YChan d (norm e) ""
+  | YFunc ps rs v _ => YFunc (map norm ps) (map norm rs) v ""
+  | YStruct meta ts _ => YStruct meta (map norm ts) ""
+  | YIface names sigs _ => YIface names (map norm sigs) ""
+  | YAlias _ r => norm r
+  | YOpaque pr => YOpaque pr
   end.
 
-Definition identical (a b : tyt) : bool := String.eqb (canon a) (canon b).
+Definition opt_str_eqb (a b : option string) : bool :=
+  match a, b with Some x, Some y => String.eqb x y | None, None => true | _, _ => false end.
+
+Definition meta_eqb (a b : string * bool * string) : bool :=
+  let '(n1, e1, t1) := a in let '(n2, e2, t2) := b in String.eqb n1 n2 && Bool.eqb e1 e2 && String.eqb t1 t2.
+
+Fixpoint list_eqb {A} (eqb : A -> A -> bool) (a b : list A) : bool :=
+  match a, b with
+  | [], [] => true
+  | x :: r, y :: s => eqb x y && list_eqb eqb r s
+  | _, _ => false
+  end.
+
+(* structural equality of type terms *)
+Fixpoint tyt_eqb (a b : tyt) : bool :=
+  let fix leqb (l1 l2 : list tyt) : bool :=
+    match l1, l2 with
+    | [], [] => true
+    | x :: r, y :: s => tyt_eqb x y && leqb r s
+    | _, _ => false
+    end in
+  match a, b with
+  | YBasic k1 n1, YBasic k2 n2 => String.eqb k1 k2 && String.eqb n1 n2
+  | YNamed p1 n1, YNamed p2 n2 => opt_str_eqb p1 p2 && String.eqb n1 n2
+  | YPtr x, YPtr y => tyt_eqb x y
+  | YSlice x p1, YSlice y p2 => tyt_eqb x y && String.eqb p1 p2
+  | YArray n1 x p1, YArray n2 y p2 => Z.eqb n1 n2 && tyt_eqb x y && String.eqb p1 p2
+  | YMap k1 v1 p1, YMap k2 v2 p2 => tyt_eqb k1 k2 && tyt_eqb v1 v2 && String.eqb p1 p2
+  | YChan d1 x p1, YChan d2 y p2 => String.eqb d1 d2 && tyt_eqb x y && String.eqb p1 p2
+  | YFunc ps1 rs1 v1 p1, YFunc ps2 rs2 v2 p2 => leqb ps1 ps2 && leqb rs1 rs2 && Bool.eqb v1 v2 && String.eqb p1 p2
+  | YStruct m1 ts1 p1, YStruct m2 ts2 p2 => list_eqb meta_eqb m1 m2 && leqb ts1 ts2 && String.eqb p1 p2
+  | YIface n1 s1 p1, YIface n2 s2 p2 => list_eqb String.eqb n1 n2 && leqb s1 s2 && String.eqb p1 p2
+  | YAlias p1 x, YAlias p2 y => String.eqb p1 p2 && tyt_eqb x y
+  | YOpaque p1, YOpaque p2 => String.eqb p1 p2
+  | _, _ => false
+  end.
+
+(* types.Identical: equal normal forms *)
+Definition identical (a b : tyt) : bool := tyt_eqb (norm a) (norm b).
 
 Record sig := { s_params : list tyt; s_results : list tyt; s_variadic : bool }.
 
